@@ -335,7 +335,8 @@ PROPS = {
             "error adapters only; (S2) no sink write / child render is reachable while such a Result is pending or on the "
             "Break path; (S1b) the same for fmt::Result inside every Display::fmt of the library crates; the adapters "
             "(replace/chain/trace..) pass their receiver through; (S3) buffered render is render_to into one fresh Vec "
-            "converted without transformation; (S4) only write_fmt (str-derived bytes) reaches the sink; unsafe census. "
+            "converted without transformation; (S4) only write_fmt (str-derived bytes) reaches the sink, never a bare write; the sink handed on is always the "
+            "caller's own writer or a local Vec (no buffering adapter whose flush/Drop can lose an error); unsafe census. "
             "NOT decided: short-count behaviour inside std's write_fmt/write_all (trusted), and byte-equality of outputs."
         ),
         "trusted": TRUST_COMMON,
@@ -367,8 +368,8 @@ PROPS = {
             "Decided from MIR for all programs: render hands the partial &GlobalFrame<SandboxedStackFrame<caller,args>> in both of its branches and "
             "include hands &StackFrame<caller,args>, each layered directly over the caller's runtime; SandboxedStackFrame::get/try_get/roots never "
             "call the parent and its registers are its own, while set_global of the fresh GlobalFrame is own; render-for resets the interrupt "
-            "after every body render before the back-edge or exit and Break leaves the loop. "
-            "NOT decided: non-interference of whole programs, error text, partial-store behaviour (C19)."
+            "after every body render before the back-edge or exit and Break leaves the loop; include/render fetch the partial with the failing lookup and "
+            "propagate; the tags hold no interior-mutable state (no memoised partial). NOT decided: non-interference of whole programs, error text, partial-store behaviour (C19)."
         ),
         "trusted": TRUST_COMMON,
         "note": "structural necessary conditions of isolation/sharing; not a non-interference proof",
@@ -382,7 +383,8 @@ PROPS = {
             "Decided from MIR: the per-render runtime is Global over caller data over counters over core; every construct renders its body in the "
             "layers its scoping rule needs (for/tablerow/include: plain StackFrame over the caller's runtime; if/case/capture/ifchanged: the caller's "
             "runtime itself); assign/capture call exactly set_global, increment/decrement exactly get_index/set_index; each layer answers from its "
-            "own data iff it holds the first path key, else delegates; capture never touches its writer; no user unsafe code. "
+            "own data iff it holds the first path key, else delegates; capture never touches its writer and binds exactly Value::scalar(from_utf8(buffer)) "
+            "unconditionally; no user unsafe code. "
             "NOT decided: the precedence outcome for each concrete program (follows from the above plus find())."
         ),
         "trusted": TRUST_COMMON,
@@ -396,7 +398,9 @@ PROPS = {
         "explanation": (
             "Decided from MIR for all loops: iter_array only shrinks/permutes the element vector and returns it (no phantom elements); the body "
             "template polls the interrupt register after every element and stops on it; For resets the interrupt after every body render before "
-            "the back-edge or exit and leaves the loop on Break; break/continue set their own kind; the else branch runs only on the len()==0 edge. "
+            "the back-edge or exit and leaves the loop on Break; break/continue set their own kind; the else branch runs only on the len()==0 edge; loop objects "
+            "are built from a forward Enumerate<IntoIter> index and selected.len(); limit/offset/reversed reach their own iter_array parameters; a range is the "
+            "inclusive range of its bounds with no non-strict emptiness guard; nothing can fail between window selection and the element loop. "
             "NOT decided: window arithmetic (offset/limit values) and every forloop/tablerow field (numeric)."
         ),
         "trusted": TRUST_COMMON,
@@ -413,7 +417,8 @@ PROPS = {
             "arm loop is exhausted; each comparison operator is decided by exactly its ValueViewCmp method on (lh, rh) and the operator spellings map to "
             "the right variants; and/or short-circuit on the correct edge; Disjunction is built only over conjunction chains (x or y and z = x or (y and z)); a "
             "bare value uses the non-failing lookup and State::Truthy; the truthiness table (numbers, dates, strings, arrays, objects true; nil false) is "
-            "read from every query_state; case/when matches by == only. NOT decided: the value of each comparison (C11)."
+            "read from every query_state; case/when matches by == only with no kind dispatch; unless builds mode=false, if/elsif mode=true. "
+            "NOT decided: the value of each comparison (C11)."
         ),
         "trusted": TRUST_COMMON,
         "note": "exactly-one-branch structure only",
@@ -460,7 +465,8 @@ PROPS = {
             "(rustc's trait solver on /repo's types); Send+Sync are supertraits of the plugin traits; no hand-written unsafe impl/blocks; the only shared "
             "mutable state reachable from shared objects is LazyStore.cache; it is locked exactly once per lookup with check, compile and insert inside "
             "that one critical section and no callee under the lock can reach Mutex::lock or a store lookup (no self-deadlock); no RefCell guard is live "
-            "across a call that can re-borrow. NOT decided: schedule-level equivalence; poisoning needs C01's panic census (cross-reference)."
+            "across a call that can re-borrow; every parser panic site that could poison the lock is discharged by C01's census (known finding: F-LIT64). "
+            "NOT decided: schedule-level equivalence."
         ),
         "trusted": TRUST_COMMON + ["rustc trait solver", "std Mutex/Arc semantics"],
         "note": "data-race freedom is rustc's own guarantee given Send/Sync facts and no unsafe; lock discipline is checked on MIR",
@@ -475,7 +481,9 @@ PROPS = {
             "delegates to value_eq/scalar_eq resp. value_cmp/scalar_cmp (so != is the negation and <,<=,>,>= come from one function); for every ordered "
             "pair of scalar kinds the arms selected in scalar_eq and scalar_cmp are mirror images (same conversions and comparison on both argument orders) "
             "and, wherever scalar_cmp orders a pair, scalar_eq uses the same numeric/date conversions; value_eq/value_cmp query both operands alike; "
-            "object entry iterators (hash order) feed only order-insensitive consumers or are key-sorted first. "
+            "the array/object views of both operands of value_cmp are consumed alike (duality); object entry iterators (hash order) feed only order-insensitive "
+            "consumers or are key-sorted first; DateTime/Date compare through derives on the wrapped time types (== and <,> agree); uniq/case identity and the "
+            "template operators go through ValueViewCmp only. "
             "NOT decided: reflexivity, numeric equality of particular values, NaN, date instants."
         ),
         "trusted": TRUST_COMMON,
@@ -489,7 +497,8 @@ PROPS = {
         "explanation": (
             "Decided from MIR: array filters use the stable slice::sort_by; each comparator is followed through its helpers to the partial_cmp calls that "
             "produce its result and is total only if those are on Ord types or not defaulted; uniq and case/when decide identity through ValueViewCmp == "
-            "only (no rendering- or hash-keyed shortcut); object comparison is independent of hash order. "
+            "only (no rendering- or hash-keyed shortcut), where by ValueViewCmp == / Truthy; reverse/first/last/concat/compact/join use their own operations; object "
+            "comparison is independent of hash order. "
             "NOT decided: permutation/multiset/idempotence laws, map/where/concat contents."
         ),
         "trusted": TRUST_COMMON,
@@ -551,7 +560,8 @@ PROPS = {
             "Decided: WHITESPACE accepts exactly space, tab, LF, CR(LF); each of the four delimiters tries its trimming form first with WHITESPACE* on the outer side "
             "only; Raw checks every character against the start delimiters; Tag/Expression have no other whitespace consumption; Text and RawT print exactly one field "
             "of self with one sink write and call nothing else; Comment::render_to makes no call; the comment parser interprets nested tags only; the raw parser "
-            "stores escape_liquid(false) unmodified. NOT decided: byte-for-byte equality for all texts, escape_liquid's span arithmetic."
+            "stores escape_liquid(false) unmodified; escape_liquid closes the block only on an end tag without further tokens; only write_fmt (never a bare write) "
+            "carries text to the sink. NOT decided: byte-for-byte equality for all texts, escape_liquid's span arithmetic."
         ),
         "trusted": TRUST_COMMON + ["pest_meta grammar front end; pest matching semantics"],
         "note": "grammar shape rules alarm on any reformulation of the delimiter rules (DESIGN §6 residual risk)",
@@ -564,7 +574,8 @@ PROPS = {
         "explanation": (
             "Decided: an output tag resolves through Expression::evaluate -> Variable::evaluate -> Runtime::get -> find, each error propagated with `?` and never the "
             "optional lookups; an integer index goes only to ArrayView::get, names to the overlay, object `size` is a fallback of the real key; each lookup step consumes "
-            "one path element; string literals are literal[1..len-1] verbatim; float/bool literal conversions cannot fail (grammar language); every match over literal "
+            "one path element; index conversion neither clamps nor wraps; string literals are literal[1..len-1] verbatim and numeric/boolean literals are token.parse() with "
+            "no defaulting or sign surgery; float/bool literal conversions cannot fail (grammar language); every match over literal "
             "kinds covers the grammar's alternatives. NOT decided: negative-index arithmetic, printed form of each literal. Known finding: F-LIT64."
         ),
         "trusted": TRUST_COMMON + ["pest_meta grammar front end"],
@@ -608,7 +619,8 @@ PROPS = {
             "Decided: in the string filters, slice and the `.size` overlay no byte length is returned as a size, drives skip/take on a character iterator or is "
             "compared with/subtracted from a user-supplied count (known finding: truncate, whose byte comparison is asserted by an existing unit test); a filter chain "
             "is entry = filter(entry) over self.filters in declaration order; split returns str::split's fields unfiltered and join joins every element (so join "
-            "inverts split); truncate returns the input unchanged unless it is longer than the limit itself. NOT decided: each filter's documented function and the "
+            "inverts split); truncate returns the input unchanged unless it is longer than the limit itself; size and slice count/cut with chars() (not graphemes/bytes); "
+            "each case/strip/replace filter uses its own std operation and not its sibling's; default queries State::DefaultValue. NOT decided: each filter's documented function and the "
             "algebraic laws on all strings."
         ),
         "trusted": TRUST_COMMON,
@@ -623,7 +635,8 @@ PROPS = {
             "Decided: the wrapper impls (&V, ValueCow, Value, Option<T>; &O; &A) override every trait method whose default would change behaviour (the set of "
             "pure defaults is computed from the trait's own default bodies) and each forwards to the same-named method; no value-changing `as` cast exists in "
             "model/**/ser.rs (integers are narrowed with TryFrom); every derive(ObjectView, ValueView) struct in the workspace has size/keys/iter/contains_key/get/"
-            "to_value agreeing on its field set with to_value inserting every field unconditionally; the truthiness table of every kind is the specified one. "
+            "to_value agreeing on its field set with to_value inserting every field unconditionally; the truthiness table of every kind is the specified one; the serde "
+            "bridges of Date/DateTime read exactly the formats they write (no lenient parser). "
             "NOT decided: serde round-trip equality, derive vs serde on user structs with serde attributes, printed forms."
         ),
         "trusted": TRUST_COMMON,
